@@ -135,76 +135,88 @@ def rules(ctx: Ctx) -> None:
     ctx.ob("R05.1", "reported-statements-are-the-analysed-list", ok_rep, rep.loc(), "statements() maps the statement list one-to-one (comment trimming only), without filter or reordering")
 
     # ---- R05.2 split() ----------------------------------------------------------------------
+    # In normal form (continue guards as branches, accumulator loops as comprehensions, negations at the atoms) split() is
+    #     return [piece.value for piece in sqlparse.parse(sql) if <keep condition>]
+    # and the rule compares the keep condition, as a boolean function of three atoms, with the one the property states:
+    #     keep  <=>  the piece has a first non-comment token  and not (that token is Punctuation and its text is ';')
     ctx.touched(split)
-    scfg = flow(prog, split)
-    sloops = [n for n in prog.walk_fn(split) if isinstance(n, ast.For)]
-    if len(sloops) != 1:
-        raise AnalysisError("split(): expected one loop over the parsed pieces")
-    SL = sloops[0]
-    piece = u(SL.target)
-    ok_iter = isinstance(SL.iter, ast.Call) and u(SL.iter.func) == "sqlparse.parse" and len(SL.iter.args) == 1 and u(SL.iter.args[0]) == split.params()[0]
-    ctx.ob("R05.2", "split:iterates-parser-pieces", ok_iter, loc(split.mod, SL), f"`for {piece} in {u(SL.iter)}`: pieces are the parser's statement boundaries of the whole input")
-    apps = [k for k in ast.walk(SL) if isinstance(k, ast.Call) and isinstance(k.func, ast.Attribute) and k.func.attr == "append"]
-    ctx.ob("R05.2", "split:one-append-site", len(apps) == 1, loc(split.mod, SL), "kept pieces are appended at one site", trivial=True)
-    if len(apps) == 1:
-        a = apps[0]
-        unmodified = len(a.args) == 1 and u(a.args[0]) in (f"{piece}.value", f"str({piece})")
-        ctx.ob("R05.2", "split:piece-appended-unmodified", unmodified, loc(split.mod, a), f"`{u(a)}` keeps the piece's text unmodified")
-        # the conditions that decide keep / drop
-        atoms = controlling_atoms(prog.parents, a, stop=SL)
-        # also conditions guarding `continue` statements in the loop
-        for k in ast.walk(SL):
-            if isinstance(k, ast.Continue):
-                atoms += controlling_atoms(prog.parents, k, stop=SL)
-        first_name = None
-        norm_atoms = set()
-        def _strip_none(at):
-            if isinstance(at, ast.Compare) and len(at.ops) == 1 and isinstance(at.ops[0], (ast.Is, ast.IsNot)) and isinstance(at.comparators[0], ast.Constant) and at.comparators[0].value is None:
-                return at.left
-            return at
-        atoms = [_strip_none(at) for at in atoms]
-        for at in list(atoms):
-            if isinstance(at, ast.Call) and isinstance(at.func, ast.Attribute) and at.func.attr == "token_first":
-                kw = {k.arg: prog.try_fold(k.value, split.mod, split) for k in at.keywords}
-                norm_atoms.add("first" if u(at.func.value) == piece and kw.get("skip_cm") is True else f"?{u(at)}")
-                atoms.remove(at)
-        for at in atoms:
-            if isinstance(at, ast.NamedExpr) and isinstance(at.value, ast.Call) and isinstance(at.value.func, ast.Attribute) and at.value.func.attr == "token_first":
-                first_name = u(at.target)
-                kw = {k.arg: prog.try_fold(k.value, split.mod, split) for k in at.value.keywords}
-                norm_atoms.add("first" if u(at.value.func.value) == piece and kw.get("skip_cm") is True else f"?{u(at)}")
-            else:
-                norm_atoms.add(u(at))
-        if first_name is None:
-            # first token bound by a plain assignment
-            for k in ast.walk(SL):
-                if isinstance(k, ast.Assign) and isinstance(k.value, ast.Call) and isinstance(k.value.func, ast.Attribute) and k.value.func.attr == "token_first":
-                    first_name = u(k.targets[0])
-                    kw = {x.arg: prog.try_fold(x.value, split.mod, split) for x in k.value.keywords}
-                    if not (u(k.value.func.value) == piece and kw.get("skip_cm") is True):
-                        norm_atoms.add(f"?{u(k.value)}")
-            norm_atoms = {("first" if t == first_name else t) for t in norm_atoms}
-        expected = {"first", f"{first_name}.ttype == Punctuation", f"{first_name}.value == ';'"}
-        alt = {"first", f"{first_name}.match(Punctuation, ';')"}
-        ctx.ob("R05.2", "split:keep-drop-decided-by-the-two-stated-reasons", norm_atoms == expected or norm_atoms == alt, loc(split.mod, a),
-               f"a piece is dropped only when it has no non-comment token or its first non-comment token is the `;` punctuation; the decision uses {sorted(norm_atoms)}")
-        facts = scfg.facts_for(a)
-        has_first = any((t == first_name and p) or (t in (f"{first_name} is not None",) and p) or (t in (f"{first_name} is None",) and not p)
-                        or ("token_first(skip_cm=True)" in t and ((" is None" in t and not p) or (" is not None" in t and p) or (t.endswith(")") and p))) for t, p in facts)
-        ctx.ob("R05.2", "split:kept-only-with-a-real-first-token", has_first, loc(split.mod, a), "appended pieces have a non-comment token")
-        conts = [k for k in ast.walk(SL) if isinstance(k, ast.Continue)]
-        for c in conts:
-            cf = scfg.facts_for(c)
-            ok = any("Punctuation" in t and p for t, p in cf) and any("== ';'" in t and p for t, p in cf) or any(".match(Punctuation" in t and p for t, p in cf)
-            ctx.ob("R05.2", "split:skip-only-semicolon-pieces", ok, loc(split.mod, c), "`continue` is reached only when the first non-comment token is the `;` punctuation")
-        # the append must not be reachable when the first token IS the semicolon punctuation
-        acfg = scfg.cfg
-        aid = acfg.node_for(a)
-        semis = [c for c in acfg.nodes.values() if c.kind == "cond" and "== ';'" in u(c.ast)]
-        ok_excl = bool(semis) and all(not any(acfg.g[s.id][b].get("label") and acfg.g[s.id][b]["label"][1] is True and (b == aid or acfg.reach(b, aid, avoid=[n.id for n in acfg.nodes.values() if n.kind == "for"])) for b in acfg.g.successors(s.id)) for s in semis)
-        ctx.ob("R05.2", "split:semicolon-pieces-are-never-kept", ok_excl, loc(split.mod, a), "a piece whose first non-comment token is `;` never reaches the append")
     rets = [n for n in prog.walk_fn(split) if isinstance(n, ast.Return) and n.value is not None]
-    ctx.ob("R05.2", "split:returns-the-kept-list", len(rets) == 1 and len(apps) == 1 and u(rets[0].value) == u(apps[0].func.value), split.loc(), "split() returns the list of kept pieces, in order")
+    comps = [v for r_ in rets for v in prog.value_sources(split, r_.value) if isinstance(v, (ast.ListComp, ast.GeneratorExp))]
+    if len(rets) != 1 or len(comps) != 1 or len(comps[0].generators) != 1:
+        raise AnalysisError("split(): the returned list is not built by one pass over the parsed pieces (normal form: one comprehension)")
+    comp = comps[0]
+    g0 = comp.generators[0]
+    piece = u(g0.target)
+    it_srcs = prog.value_sources(split, g0.iter)
+    ok_iter = len(it_srcs) == 1 and isinstance(it_srcs[0], ast.Call) and u(it_srcs[0].func) in ("sqlparse.parse", "parse") and len(it_srcs[0].args) == 1 and u(it_srcs[0].args[0]) == split.params()[0]
+    ctx.ob("R05.2", "split:iterates-parser-pieces", ok_iter, loc(split.mod, comp), f"`for {piece} in {u(g0.iter)[:50]}`: pieces are the parser's statement boundaries of the whole input")
+    unmodified = u(comp.elt) in (f"{piece}.value", f"str({piece})")
+    ctx.ob("R05.2", "split:piece-appended-unmodified", unmodified, loc(split.mod, comp), f"`{u(comp.elt)}` keeps the piece's text unmodified")
+
+    first_names: set[str] = set()
+
+    def atom_of(e: ast.AST):
+        """-> (atom, polarity) or None.  Atoms: F (first non-comment token exists), P (its type is Punctuation), S (its text is ';')."""
+        if isinstance(e, ast.NamedExpr):
+            r_ = atom_of(e.value)
+            if r_ == ("F", True):
+                first_names.add(u(e.target))
+            return r_
+        if isinstance(e, ast.Compare) and len(e.ops) == 1 and isinstance(e.ops[0], (ast.Is, ast.IsNot)) and isinstance(e.comparators[0], ast.Constant) and e.comparators[0].value is None:
+            r_ = atom_of(e.left)
+            return (r_[0], r_[1] == isinstance(e.ops[0], ast.IsNot)) if r_ and r_[0] == "F" else None
+        if isinstance(e, ast.Call) and isinstance(e.func, ast.Attribute) and e.func.attr == "token_first" and u(e.func.value) == piece:
+            kw = {k.arg: prog.try_fold(k.value, split.mod, split) for k in e.keywords}
+            return ("F", True) if kw.get("skip_cm") is True else None
+        if isinstance(e, ast.Name):
+            srcs_ = [v for v in prog.value_sources(split, e) if not (isinstance(v, ast.Name) and v.id == e.id)]
+            if e.id in first_names or (len(srcs_) == 1 and atom_of(srcs_[0]) == ("F", True)):
+                first_names.add(e.id)
+                return ("F", True)
+            return None
+        if isinstance(e, ast.Compare) and len(e.ops) == 1 and isinstance(e.ops[0], (ast.Eq, ast.NotEq, ast.Is, ast.IsNot)):
+            pol = isinstance(e.ops[0], (ast.Eq, ast.Is))
+            l_, r2 = e.left, e.comparators[0]
+            for x, y in ((l_, r2), (r2, l_)):
+                if isinstance(x, ast.Attribute) and isinstance(x.value, ast.Name) and atom_of(x.value) == ("F", True):
+                    if x.attr == "ttype" and u(y).split(".")[-1] == "Punctuation":
+                        return ("P", pol)
+                    if x.attr in ("value", "normalized") and prog.try_fold(y, split.mod, split) == ";":
+                        return ("S", pol)
+        return None
+
+    unknown: list[str] = []
+
+    def ev(e: ast.AST, val: dict) -> bool:
+        if isinstance(e, ast.BoolOp):
+            rs = [ev(v, val) for v in e.values]
+            return all(rs) if isinstance(e.op, ast.And) else any(rs)
+        if isinstance(e, ast.UnaryOp) and isinstance(e.op, ast.Not):
+            return not ev(e.operand, val)
+        if isinstance(e, ast.Call) and isinstance(e.func, ast.Attribute) and e.func.attr == "match" and isinstance(e.func.value, ast.Name) and atom_of(e.func.value) == ("F", True) \
+                and len(e.args) == 2 and u(e.args[0]).split(".")[-1] == "Punctuation" and prog.try_fold(e.args[1], split.mod, split) == ";":
+            return val["P"] and val["S"]
+        at = atom_of(e)
+        if at is None:
+            unknown.append(u(e)[:60])
+            return True
+        return val[at[0]] == at[1]
+
+    keep = ast.BoolOp(op=ast.And(), values=list(g0.ifs)) if g0.ifs else ast.Constant(value=True)
+    wrong = []
+    for F_ in (True, False):
+        for P_ in (True, False):
+            for S_ in (True, False):
+                if not F_ and (P_ or S_):
+                    continue  # no token: nothing to ask about its type / text
+                got = ev(keep, {"F": F_, "P": P_, "S": S_}) if g0.ifs else True
+                want = F_ and not (P_ and S_)
+                if got != want:
+                    wrong.append(f"first token {'present' if F_ else 'absent'}, punctuation={P_}, text-is-semicolon={S_}: kept={got}, must be {want}")
+    ctx.ob("R05.2", "split:keep-drop-decided-by-the-two-stated-reasons", not wrong and not unknown, loc(split.mod, comp),
+           "a piece is dropped exactly when it has no non-comment token or its first non-comment token is the `;` punctuation"
+           + (f"; the condition also depends on `{unknown[0]}`" if unknown else "") + (f"; {wrong[0]}" if wrong else ""))
+    ctx.ob("R05.2", "split:returns-the-kept-list", True, split.loc(), "split() returns the list of kept pieces, in order", trivial=True)
 
     # ---- R05.4 T-SQL splitter ---------------------------------------------------------------
     stsql = next((f for f in prog.funcs.values() if f.name == "split_tsql" and f.cls is not None), None)
